@@ -501,6 +501,29 @@ def run_session(case, fixture=None):
             fixture.cleanup()
 
 
+_PROBE = []
+
+
+def _ready_probe_class():
+    """a Deferred that notes every attempt to fire it (a second attempt raises inside the library
+    and would otherwise be invisible)"""
+    if not _PROBE:
+        from twisted.internet import defer
+
+        class ReadyProbe(defer.Deferred):
+            _tc04_note = None
+
+            def callback(self, result):
+                self._tc04_note('ok')
+                return defer.Deferred.callback(self, result)
+
+            def errback(self, fail=None):
+                self._tc04_note('err')
+                return defer.Deferred.errback(self, fail)
+        _PROBE.append(ReadyProbe)
+    return _PROBE[0]
+
+
 def _drive(case, fixture):
     from twisted.internet import defer, error
     from twisted.python.failure import Failure
@@ -559,22 +582,14 @@ def _drive(case, fixture):
 
     t = StringTransport()
 
-    class ReadyProbe(defer.Deferred):
-        def _note(self, kind):
-            st['attempts'].append({'kind': kind, 'authed': tor.authed, 'failed': tor.post_failed,
-                                   'unconsumed': len(t.value()) - st['consumed'], 'undelivered': st['undelivered'],
-                                   'closed': st['closed']})
-
-        def callback(self, result):
-            self._note('ok')
-            return defer.Deferred.callback(self, result)
-
-        def errback(self, fail=None):
-            self._note('err')
-            return defer.Deferred.errback(self, fail)
+    def note(kind):
+        st['attempts'].append({'kind': kind, 'authed': tor.authed, 'failed': tor.post_failed,
+                               'unconsumed': len(t.value()) - st['consumed'], 'undelivered': st['undelivered'],
+                               'closed': st['closed']})
 
     proto = tcp.TorControlProtocol(None if provider_label == 'none' else provider)
-    probe = ReadyProbe()
+    probe = _ready_probe_class()()
+    probe._tc04_note = note
     proto.post_bootstrap = probe
     fired = []
     probe.addCallbacks(lambda v: fired.append('ok') or None, lambda f: fired.append('err') or None)
@@ -695,7 +710,9 @@ def _judge(case, obs):
     def bad(clause, sig, what):
         viol.append({'key': 'C04:%s:%s' % (clause, sig), 'clause': clause,
                      'what': what + ' [advertised %s; %s; server pi=%s chal=%s auth=%s boot=%s; seg=%s]' % (
-                         ','.join(methods), ctx(), case['pi'], case['chal'], case['auth'], case['boot'], case['seg']),
+                         ','.join(methods), ctx(), case['pi'], case['chal'], case['auth'], case['boot'], case['seg']) + (
+                         ' [cookie file %r advertised as COOKIEFILE="<dir>/%s]' % (NAMES[case['name']], qs_encode(NAMES[case['name']], case['style'])[1:])
+                         if nondefault_path else ''),
                      'history': case})
 
     log = obs['log']
@@ -1019,7 +1036,7 @@ def twin(tier, seed):
             if per_key[v['key']] <= KEEP_PER_KEY:
                 violations.append(v)
     fx = Fixture()
-    nrandom = 1200 if tier == 'quick' else 40000
+    nrandom = 2000 if tier == 'quick' else 150000
     try:
         def one(case):
             v, obs = run_session(case, fx)
@@ -1056,7 +1073,8 @@ def twin(tier, seed):
                     'bootstrap-query step, reply segmentation), judged by the statement-level oracle; or one quoted string given to '
                     'unescape_quoted_string and compared with a control-spec 2.1.1 reference decoder. Every session is non-trivial (a '
                     'handshake is attempted); sessions are distinct by everything except segmentation and seed; quoted strings '
-                    'count when they contain at least one escape',
+                    'count when they contain at least one escape. Every violating case is counted in its first records\' "what", but at most '
+                    '%d full records are kept per key' % KEEP_PER_KEY,
             'bounds': ('%s tier: all 64 ordered non-empty subsets of {SAFECOOKIE,COOKIE,HASHEDPASSWORD,NULL} x %d cookie-file '
                        'conditions x %d password providers against an honest Tor; %d AUTHCHALLENGE behaviours, %d PROTOCOLINFO, %d '
                        'AUTHENTICATE behaviours and {5xx,disconnect,malformed} at bootstrap query 0..4 on %s method lists; %d file '
